@@ -911,7 +911,13 @@ func (t *Term) writeBody(b *strings.Builder, named map[int]bool) {
 		return
 	}
 	b.WriteByte('(')
-	b.WriteString(t.Op)
+	if strings.HasPrefix(t.Op, "uf:") {
+		b.WriteByte('|')
+		b.WriteString(t.Op)
+		b.WriteByte('|')
+	} else {
+		b.WriteString(t.Op)
+	}
 	for _, a := range t.Args {
 		b.WriteByte(' ')
 		a.write(b, named)
@@ -940,12 +946,25 @@ func Script(asserts []*Term, known map[string]bool, scoped bool) string {
 	}
 	var b strings.Builder
 	named := map[int]bool{}
+	ufSeen := map[string]bool{}
 	for _, t := range order {
 		if t.Op == "var" {
 			if known == nil || !known[t.Name] {
 				fmt.Fprintf(&b, "(declare-fun |%s| () %s)\n", t.Name, t.Sort.S)
 				if known != nil {
 					known[t.Name] = true
+				}
+			}
+		} else if strings.HasPrefix(t.Op, "uf:") && !ufSeen[t.Op] {
+			ufSeen[t.Op] = true
+			if known == nil || !known[t.Op] {
+				var as []string
+				for _, a := range t.Args {
+					as = append(as, a.Sort.S)
+				}
+				fmt.Fprintf(&b, "(declare-fun |%s| (%s) %s)\n", t.Op, strings.Join(as, " "), t.Sort.S)
+				if known != nil {
+					known[t.Op] = true
 				}
 			}
 		}
@@ -957,7 +976,7 @@ func Script(asserts []*Term, known map[string]bool, scoped bool) string {
 		if t.Op == "var" || t.Op == "const" {
 			continue
 		}
-		if count[t.id] > 1 {
+		if count[t.id] > 1 && len(t.Args) > 0 {
 			fmt.Fprintf(&b, "(define-fun t!%d () %s ", t.id, t.Sort.S)
 			t.writeBody(&b, named)
 			b.WriteString(")\n")
@@ -999,3 +1018,6 @@ func termSize(roots []*Term) int {
 	subTerms(roots, func(*Term) { n++ })
 	return n
 }
+
+// UF builds an application of an uninterpreted function.
+func UF(name string, s *Sort, args ...*Term) *Term { return app("uf:"+name, s, args...) }
